@@ -233,6 +233,8 @@ class FloatPOD(BasePOD[float]):
         super().__init__(attribute, default=0.0, writable=writable)
 
     def _from_xml(self, data: str, /) -> float:
+        if data == "*":
+            return math.inf
         return float(data)
 
     def _to_xml(self, value: float, /) -> str | None:
